@@ -92,19 +92,32 @@ func checkStr(c *fw.Ctx, s string) {
 	}
 }
 
+// checkDec: re-scaling between a token unit with dec decimals and the 18-decimal ledger unit is
+// the composition of the two primitives (format with precision dec, parse with 18 decimals, and
+// vice versa), so it must be exact: Rocket(n,dec) = n*10^(18-dec), ERC20(m,dec) = floor(m/10^(18-dec)),
+// and ERC20(Rocket(n,dec),dec) = n.
 func checkDec(c *fw.Ctx, n *big.Int, dec int64) {
 	c.Eval(1)
+	k := kase{Kind: "fmt", N: n.String(), Dec: dec}
+	scale := pow(10, 18-dec)
+	var up, down, back *big.Int
 	p, v, where := fw.Try(func() {
-		a := utility.FormatDecimalForERC20(n, dec)
-		b := utility.FormatDecimalForRocket(n, dec)
-		// scaling down then up never gains value
-		if dec < 18 && a.Cmp(n) > 0 {
-			panic(fmt.Sprintf("ERC20(%s,%d)=%s larger than input", n, dec, a))
-		}
-		_ = b
+		up = utility.FormatDecimalForRocket(n, dec)
+		down = utility.FormatDecimalForERC20(n, dec)
+		back = utility.FormatDecimalForERC20(up, dec)
 	})
 	if p {
-		c.Violation("C18:dec:panic:"+where, "decimals", fmt.Sprintf("panic %v n=%s dec=%d", v, n, dec), kase{Kind: "fmt", N: n.String(), Dec: dec})
+		c.Violation("C18:dec:panic:"+where, "decimals", fmt.Sprintf("panic %v n=%s dec=%d", v, n, dec), k)
+		return
+	}
+	if want := new(big.Int).Mul(n, scale); up.Cmp(want) != 0 {
+		c.Violation("C18:dec:to-ledger-unit", "decimals", fmt.Sprintf("FormatDecimalForRocket(%s,%d)=%s want %s", n, dec, up, want), k)
+	}
+	if want := new(big.Int).Quo(n, scale); down.Cmp(want) != 0 {
+		c.Violation("C18:dec:to-token-unit", "decimals", fmt.Sprintf("FormatDecimalForERC20(%s,%d)=%s want %s", n, dec, down, want), k)
+	}
+	if back.Cmp(n) != 0 {
+		c.Violation("C18:dec:roundtrip", "decimals", fmt.Sprintf("ERC20(Rocket(%s,%d),%d)=%s", n, dec, dec, back), k)
 	}
 }
 
@@ -133,6 +146,24 @@ func run(c *fw.Ctx) {
 		}
 	}
 	c.Sample(kase{Kind: "int", N: "999999"})
+
+	// (1b) every decimal count 0..18 x every amount below 2000 and around each power of ten up to 10^20
+	for dec := int64(0); dec <= 18; dec++ {
+		for i := int64(0); i < 2000; i++ {
+			if mine() {
+				checkDec(c, big.NewInt(i), dec)
+				nontriv++
+			}
+		}
+		for k := int64(0); k <= 20; k++ {
+			for _, d := range []int64{-1, 0, 1, 5} {
+				if n := new(big.Int).Add(pow(10, k), big.NewInt(d)); n.Sign() >= 0 && mine() {
+					checkDec(c, n, dec)
+					nontriv++
+				}
+			}
+		}
+	}
 
 	// (2) 10^k+d, 2^k+d, and negatives
 	ds := []int64{-2, -1, 0, 1, 2}
